@@ -63,10 +63,22 @@ CHECKS = {
         technique="runtime panic monitor (catch_unwind + panic hook + exit-signal) over hostile workloads in a checked build (debug assertions + overflow checks as online invariant monitors)",
         text="Every public call is driven with random bytes, structure-aware hostile-but-accepted private keys (then serialised, derived, used to sign in all modes), extremal and malformed signatures, degenerate public keys, adversarial sparse-coset fixtures, long messages and contexts, and the rejection-heavy hostile-t0 signing workload; any unwind or abort is a violation keyed on (panic location, API, input class).",
         design_ref="5/C13, 2.5", note="Trusted base: rustc's overflow checks and the crate's own debug_assert!s as the monitors; the structure-aware generators reach only what they construct. No proof of panic freedom."),
+    "C14": dict(
+        technique="compiler coverage instrumentation (SanitizerCoverage edges + load/store addresses) with an online trace-equality monitor; valgrind memcheck secret-taint; callgrind profile equality",
+        text="dudect_keygen_sign_with_rng and each secret-handling kernel (via verif_hooks) are run in SanitizerCoverage-instrumented optimised builds; the complete edge sequence and load/store address sequence are hashed per run and must be identical for every RNG output / in-domain input (first divergence is located and symbolised when not). Kernels are additionally run under memcheck with their inputs marked undefined (secret taint at machine-code level); thorough adds opt-levels 1 and s and callgrind profile equality for the pipeline.",
+        design_ref="5/C14, 2.6", note="Trusted base: LLVM's sancov pass inserts a callback on every edge, load and store of the allow-listed crates (fips204, the driver, sha3, keccak, digest, block-buffer, zeroize, rand_core); memcpy intrinsics are not traced; valgrind's definedness tracking. Micro-architectural timing is out of scope, as for the property. Finite set of inputs."),
     "C15": dict(
         technique="runtime monitoring by exhaustive domain sweeps through verif_hooks against big-integer definitions",
         text="Each scalar function is evaluated on its whole input domain (2^23-2^32 points; thorough is exhaustive: 3.4e11 evaluations; quick sweeps the 2^23/2^24 domains fully and the 2^32 domains at a seeded stride plus boundary windows) and compared with i64/i128 definitions; the checked build replays a strided subset so the crate's own range assertions monitor the same inputs.",
         design_ref="5/C15", note="Trusted base: the big-integer definitions (cross-checked against the reference model), rustc. mont_reduce is exhaustive over low words for 74 high words, not over all 2^54 inputs."),
+    "C16": dict(
+        technique="runtime memory monitor: volatile read-back of the object's storage after drop_in_place (native, and under Miri in thorough)",
+        text="Key objects of every type/provenance/placement are written into harness-owned storage, checked to be mostly non-zero, dropped in place, and every byte of size_of::<T>() is read back and must be zero; thorough repeats a condensed run under Miri, which also checks that the raw reads are defined.",
+        design_ref="5/C16", note="Trusted base: the harness's unsafe raw-pointer reads (validated under Miri); cannot see stale copies left by moves before the drop."),
+    "C17": dict(
+        technique="configuration enumeration with build-status and known-answer-digest monitors; real no_std target build",
+        text="All 28 feature configurations are built (warnings are errors), a known-answer program is built and run per configuration and its per-set transcript digest compared with the default configuration's, OS-RNG and dudect entry points are exercised where enabled, and the 14 configurations without default-rng are compiled for x86_64-unknown-none with a std-less sysroot.",
+        design_ref="5/C17", note="Trusted base: cargo/rustc feature resolution; the default configuration as behavioural reference. Exhaustive over the 28 configurations, sampled over inputs (fixed transcript)."),
     "C18": dict(
         technique="runtime monitoring of the real NTT pipelines through hooks against a schoolbook oracle; overflow-check panics; adversarial sparse-coset input search",
         text="The transform / pointwise-multiply(-accumulate) / inverse-transform pipelines are replayed through verif_hooks in the exact compositions of ml_dsa.rs and compared with the O(n^2) negacyclic product for all basis polynomials x scalars, extremal sign patterns and random inputs at every call-site range, in release and checked (overflow-check) builds; sparse-coset adversarial rows (which drive the sum of the inverse NTT's inputs to 1.2 x 2^31) for ML-DSA-65/87 are checked at hook level and as FIPS-valid signatures through verify() against the reference.",
